@@ -6,37 +6,54 @@ Driver for the trace-level WAL checks:
 
   walcrash <nowYear> <a> <j> <keys> <step> <step> …
       steps as in the `store` op plus K (checkpoint) and T (rotation).  The first `a` steps
-      completed (were acknowledged); the crash happened `j` effects into step number `a`
-      (`*` = somewhere inside a catalog operation the WAL model does not describe).
+      completed (were acknowledged); the crash happened `j` effects into step number `a`.
+      `j` = `*`  : somewhere inside catalog operations the WAL model does not describe;
+      `j` = `m<n>`: after `n` effects AND between the data write and the index write of the next
+                    command of a variable-length file.
       M: the restart output the model predicts (`*` if it predicts nothing),
-      S: `?alt0||alt1` — the outputs the properties C01/C02/C03 allow: startup ok and every
-         bucket showing the last-writer-wins content of the acknowledged requests, or of those
-         plus the request in flight.
+      S: `?alt0||alt1||…` — the outputs the properties C01/C02/C03 allow: startup ok, nothing
+         left over, every bucket showing exactly the content of the acknowledged requests, or of
+         those plus the request in flight (fixed: last writer wins; variable: every record once).
+      H: `var_replay_duplicates` when the model predicts duplicated variable-length records,
+         `var_crash_between_data_and_index` for `m` positions.
   waltrace <nowYear> <step> …
-      M: effect kinds per step, e.g. `W:WWWWWWFPP K:WSW T:WSWTWF C:-`
+      M: effect kinds per step, e.g. `W:WWWWWWFPP K:WSW T:WSWTWF C:-` (one P per command)
+
+Variable-length commands are carried through `Mkts.WalProto` as ONE command whose payload is the
+concatenation of its records (payload ++ 4-byte ticks); the recovered file content of such a
+bucket is the append interpretation of `Mkts.Props.C02` (everything applied before the crash, then
+everything replay appends), split into records, stably sorted by ticks and decoded.
 -/
 namespace Mkts.Driver.Wal
-open Mkts.Proto Mkts.Store Mkts.WalProto Mkts.Bytes Mkts.Driver.Store
+open Mkts.Proto Mkts.Store Mkts.WalProto Mkts.Bytes Mkts.Driver.Store Mkts.VStore
 
 structure BInfo where
   key : String
   idx : Nat
   tf : Int
   cols : List Col
+  isVar : Bool
 
 def yearTag : Int := 100000
 
-/-- commands of a fixed write step, tagged with the bucket number in the year field -/
+def payloadSize (cols : List Col) : Nat := (cols.map (fun c => (typeSize c.ty).getD 0)).sum
+
+def tagCmd (b : BInfo) (c : Cmd) : Cmd := { c with year := c.year + yearTag * (b.idx + 1) }
+
+/-- commands of a write step, tagged with the bucket number in the year field -/
 def stepCmds (b : BInfo) (rows : List (Int × Int × Bytes)) : List Cmd :=
-  (writeRecords b.tf (rows.map (fun r => (⟨r.1, r.2.2⟩ : Row)))).map
-    (fun c => { c with year := c.year + yearTag * (b.idx + 1) })
+  if b.isVar then
+    (VStore.writeRecords tickFns b.tf (rows.map (fun r => (⟨r.1, r.2.1, r.2.2⟩ : VRow)))).map
+      (fun vc => tagCmd b ⟨vc.year, vc.index,
+        (vc.recs.map (fun r => r.payload ++ le 4 r.ticks.toNat)).flatten⟩)
+  else
+    (Store.writeRecords b.tf (rows.map (fun r => (⟨r.1, r.2.2⟩ : Row)))).map (tagCmd b)
 
 inductive PStep where
   | ev (e : Event)          -- a WAL writer event
   | create (key : String)   -- catalog only
   | unsupported
 
-/-- parse one step, threading the bucket registry -/
 def parseStep (bs : List BInfo) (st : String) : List BInfo × PStep :=
   match st.splitOn ":" with
   | ["C", key, rt, cols] =>
@@ -44,8 +61,8 @@ def parseStep (bs : List BInfo) (st : String) : List BInfo × PStep :=
     | some (_, tfs, _), some cs =>
       match parseTf tfs with
       | some tf =>
-        if rt == "v" then (bs, .unsupported) else
-        if bs.any (·.key == key) then (bs, .create key) else (bs ++ [⟨key, bs.length, tf, cs⟩], .create key)
+        if bs.any (·.key == key) then (bs, .create key)
+        else (bs ++ [⟨key, bs.length, tf, cs, rt == "v"⟩], .create key)
       | none => (bs, .unsupported)
     | _, _ => (bs, .unsupported)
   | ["W", key, rt, cols, rows] =>
@@ -53,11 +70,12 @@ def parseStep (bs : List BInfo) (st : String) : List BInfo × PStep :=
     | some (_, tfs, _), some cs, some rws =>
       match parseTf tfs with
       | some tf =>
-        if rt == "v" || rws.isEmpty then (bs, .unsupported) else
+        if rws.isEmpty then (bs, .unsupported) else
         let (bs', b) := match bs.find? (·.key == key) with
           | some b => (bs, b)
-          | none => let b : BInfo := ⟨key, bs.length, tf, cs⟩; (bs ++ [b], b)
-        if b.cols != cs then (bs, .unsupported) else (bs', .ev (.flush (stepCmds b rws)))
+          | none => let b : BInfo := ⟨key, bs.length, tf, cs, rt == "v"⟩; (bs ++ [b], b)
+        if b.cols != cs || b.isVar != (rt == "v") then (bs, .unsupported)
+        else (bs', .ev (.flush (stepCmds b rws)))
       | none => (bs, .unsupported)
     | _, _, _ => (bs, .unsupported)
   | ["K"] => (bs, .ev .checkpoint)
@@ -70,19 +88,41 @@ def parseSteps : List BInfo → List String → List PStep → List BInfo × Lis
 
 def eventsOf (ps : List PStep) : List Event := ps.filterMap (fun p => match p with | .ev e => some e | _ => none)
 
-/-- rows of one bucket in a recovered (tagged) slot map -/
-def bucketRows (b : BInfo) (slots : Slots) : List Row :=
-  let mine : Slots := slots.filterMap (fun kv =>
-    let y := kv.1.1 - yearTag * (b.idx + 1)
-    if 0 ≤ y ∧ y < yearTag then some ((y, kv.1.2), kv.2) else none)
-  query b.tf mine ⟨none, none, none⟩
+def untag (b : BInfo) (k : Int × Int) : Option (Int × Int) :=
+  let y := k.1 - yearTag * (b.idx + 1)
+  if 0 ≤ y ∧ y < yearTag then some (y, k.2) else none
 
-def renderKeys (bs : List BInfo) (keys : List String) (slots : Slots) : String :=
+/-- split a blob into records of `n + 4` bytes -/
+def splitRecs (n : Nat) (fuel : Nat) (b : Bytes) : List VRec :=
+  match fuel with
+  | 0 => []
+  | fuel + 1 =>
+    if b.length < n + 4 then [] else
+    ⟨b.take n, (leDecode ((b.drop n).take 4) : Nat)⟩ :: splitRecs n fuel (b.drop (n + 4))
+
+/-- rows of a fixed-length bucket in a recovered slot map -/
+def fixedRows (b : BInfo) (slots : Slots) : List Row :=
+  let mine : Slots := slots.filterMap (fun kv => (untag b kv.1).map (fun k => (k, kv.2)))
+  Store.query b.tf mine ⟨none, none, none⟩
+
+/-- rows of a variable-length bucket after the given command sequence has been APPENDED -/
+def varRows (b : BInfo) (appended : List Cmd) : List VRow :=
+  let n := payloadSize b.cols
+  let vs : VSlots := appended.foldl (fun s c => match untag b (c.year, c.index) with
+    | some k => s.put k (s.get k ++ splitRecs n c.payload.length c.payload)
+    | none => s) []
+  let vs' : VSlots := vs.map (fun kv => (kv.1, sortByTicks kv.2))
+  VStore.query tickFns b.tf vs' ⟨none, none, none⟩
+
+/-- output of `restart` for the listed keys: fixed buckets from the slot map `slots`, variable
+    buckets from the appended command sequence `appended` -/
+def renderKeys (bs : List BInfo) (keys : List String) (slots : Slots) (appended : List Cmd) : String :=
   " ".intercalate (keys.map (fun k => match bs.find? (·.key == k) with
-    | some b => k ++ "~" ++ renderRows (b.cols.map (·.name)) (bucketRows b slots)
+    | some b =>
+      if b.isVar then k ++ "~" ++ renderVRows (b.cols.map (·.name)) (varRows b appended)
+      else k ++ "~" ++ renderRows (b.cols.map (·.name)) (fixedRows b slots)
     | none => k ++ "~err:nofiles"))
 
-/-- Ctl after a list of events -/
 def ctlAfter : Ctl → List Event → Ctl
   | c, [] => c
   | c, e :: rest => ctlAfter (eventEffects c e).2 rest
@@ -90,7 +130,9 @@ def ctlAfter : Ctl → List Event → Ctl
 def kindChar : Effect → String
   | .walAppend _ => "W" | .walFsync => "F" | .prim _ => "P" | .sync => "S" | .walTruncate => "T" | .ack => ""
 
-def walcrashOp : Op := fun args =>
+/-- `tolerateDup`: C01 asks only that acknowledged records are present, so a prediction that
+    differs from the exact content by duplicated variable-length records is allowed as well -/
+def walcrashOpWith (tolerateDup : Bool) : Op := fun args =>
   match args with
   | _ :: aS :: jS :: keysS :: steps =>
     match parseNat aS with
@@ -99,33 +141,38 @@ def walcrashOp : Op := fun args =>
       let keys := if keysS == "-" then [] else keysS.splitOn ","
       let (_, ps) := parseSteps [] steps []
       if ps.any (fun p => match p with | .unsupported => true | _ => false) then "M:unsupported" else
-      let done := ps.take a
       let (bsDone, _) := parseSteps [] (steps.take a) []
       let (bsNext, _) := parseSteps [] (steps.take (a + 1)) []
-      let evDone := eventsOf done
-      -- the property's alternatives: content after the acknowledged steps, or after one more
-      let slotsDone := applyCmds [] (allCmds evDone)
-      let alt0 := "startup=ok " ++ renderKeys bsDone keys slotsDone ++ " left="
+      let evDone := eventsOf (ps.take a)
       let evNext := eventsOf (ps.take (a + 1))
-      let slotsNext := applyCmds [] (allCmds evNext)
-      let alt1 := "startup=ok " ++ renderKeys bsNext keys slotsNext ++ " left="
-      -- a bucket whose creation is in flight may or may not exist yet, empty
-      let alt2 := "startup=ok " ++ renderKeys bsDone keys slotsNext ++ " left="
-      -- … or exists already (created by the request in flight) while its rows are not applied yet
-      let alt3 := "startup=ok " ++ renderKeys bsNext keys slotsDone ++ " left="
-      let spec := s!"?{alt0}||{alt1}||{alt2}||{alt3}"
-      match parseNat jS with
+      -- what the properties allow: exactly the acknowledged requests, or those plus the one in flight
+      let allDone := allCmds evDone
+      let allNext := allCmds evNext
+      let line := fun (bs : List BInfo) (all : List Cmd) =>
+        "startup=ok " ++ renderKeys bs keys (applyCmds [] all) all ++ " left="
+      let alts := [line bsDone allDone, line bsNext allNext, line bsDone allNext, line bsNext allDone]
+      let spec := "?" ++ "||".intercalate alts.eraseDups
+      let mid := jS.startsWith "m"
+      let jS' := if mid then String.ofList (jS.toList.drop 1) else jS
+      match parseNat jS' with
       | none => s!"M:*\tS:{spec}\tH:"
       | some j =>
+        if mid then s!"M:*\tS:{spec}\tH:var_crash_between_data_and_index" else
+        let predict := fun (extra : List Effect) (bs : List BInfo) =>
+          let s := run {} (trace {} evDone ++ extra)
+          let live := ((liveTGs s.wal).map (·.2)).flatten
+          let m := "startup=ok " ++ renderKeys bs keys (recover s) (s.applied ++ live) ++ " left="
+          -- duplicated variable-length records: a live command that was already applied
+          let dup := bs.any (fun b => b.isVar &&
+            (s.applied.any (fun c => (untag b (c.year, c.index)).isSome && live.any (· == c))))
+          let spec' := if tolerateDup && dup then spec ++ "||" ++ m else spec
+          s!"M:{m}\tS:{spec'}\tH:{if dup then "var_replay_duplicates" else ""}"
         match ps.drop a with
         | .ev e :: _ =>
           let c := ctlAfter {} evDone
-          let s := run {} (trace {} evDone ++ ((eventEffects c e).1.take j))
-          let m := "startup=ok " ++ renderKeys (if j == 0 then bsDone else bsNext) keys (recover s) ++ " left="
-          s!"M:{m}\tS:{spec}\tH:"
-        | [] => s!"M:{alt0}\tS:{spec}\tH:"
-        | _ =>
-          s!"M:*\tS:{spec}\tH:"
+          predict ((eventEffects c e).1.take j) (if j == 0 then bsDone else bsNext)
+        | [] => predict [] bsDone
+        | _ => s!"M:*\tS:{spec}\tH:"
   | _ => badArgs
 
 def waltraceOp : Op := fun args =>
@@ -143,6 +190,6 @@ def waltraceOp : Op := fun args =>
     "M:" ++ " ".intercalate (go {} ps [])
   | _ => badArgs
 
-def ops : OpTable := [("walcrash", walcrashOp), ("waltrace", waltraceOp)]
+def ops : OpTable := [("walcrash", walcrashOpWith false), ("walcrash01", walcrashOpWith true), ("waltrace", waltraceOp)]
 
 end Mkts.Driver.Wal
